@@ -44,6 +44,8 @@ class Potential_Form_Registry(object):
     except ConfigParserMissingSectionException:
       definitions = []
 
+    self._check_labels_differ_in_more_than_case()
+
     if register_pymath_functions:
       self._register_pymath_functions()
 
@@ -53,6 +55,15 @@ class Potential_Form_Registry(object):
 
     if register_standard:
       self._register_from_potentialforms(self._potential_forms)
+
+  def _check_labels_differ_in_more_than_case(self):
+    # The names of the expression library are case-insensitive: if labels differed only in case, a formula
+    # calling one of them could silently be given the other.
+    seen = {}
+    for label in self._potential_forms:
+      other = seen.setdefault(label.lower(), label)
+      if other != label:
+        raise Potential_Form_Registry_Exception("The labels of two potential forms differ only in case: '{0}' and '{1}'".format(other, label))
 
   def _make_standard_name(self, name):
     return self._standard_namespace + name
